@@ -1,12 +1,17 @@
 package c16
 
 import (
+	"context"
+	"encoding/json"
 	"fmt"
+	"sync"
 	"testing"
 	"time"
 
 	"pgregory.net/rapid"
 
+	"tunnox-core/internal/broker"
+	"tunnox-core/internal/cloud/models"
 	coretypes "tunnox-core/internal/core/types"
 	"tunnox-core/internal/packet"
 	"tunnox-core/internal/protocol/session"
@@ -38,6 +43,15 @@ func genSession(t *rapid.T) Round {
 	r.P["hfault"] = rapid.IntRange(0, 3).Draw(t, "hfault")  // bit 1: an earlier cleanup handler fails, bit 2: it is slow
 	r.P["variant"] = rapid.IntRange(0, 1).Draw(t, "ticker") // 1: stale-connection ticker every 200us with a 1ns heartbeat timeout
 	r.P["login"] = rapid.IntRange(0, 1).Draw(t, "login")    // first connection is an authenticated control connection
+	if rapid.IntRange(0, 4).Draw(t, "cluster") == 0 {
+		// cluster mode: a BridgeManager double makes the session manager subscribe to the
+		// cross-node topics; a TunnelOpen broadcast for the locally connected client is being
+		// written to its back-pressured control connection when the closers arrive
+		r.P["cluster"] = 1
+		r.P["login"] = 1
+		r.P["variant"] = 0
+		r.Paths = drawPaths(t, []string{"parent-cancel", "accept", "close-connection", "peer-closes"}, 2)
+	}
 	return r
 }
 
@@ -83,6 +97,24 @@ func runSession(r Round) *outcome {
 	if r.p("login") == 1 {
 		if _, err := clients[0].HandshakeNew("control"); err != nil {
 			o.extraClass = append(o.extraClass, "login-failed")
+		}
+	}
+	if r.p("cluster") == 1 && clients[0].ClientID != 0 {
+		bm := &brokerDouble{node: "node-1", subs: map[string][]chan *session.BroadcastMessage{}}
+		sm.SetBridgeManager(bm)
+		if lc, err := srv.Cloud.GenerateAnonymousCredentials(); err == nil {
+			mp, err := srv.Cloud.CreatePortMapping(&models.PortMapping{ListenClientID: lc.ID, TargetClientID: clients[0].ClientID, Protocol: models.ProtocolTCP,
+				SourcePort: 17990, TargetHost: "127.0.0.1", TargetPort: 80, SecretKey: "mapping-secret-0123456789abcdef", Status: models.MappingStatusActive})
+			if err == nil {
+				clients[0].Drain()
+				clients[0].Near.SetMaxBuffered(1) // the client has stopped reading: the server's write stays pending
+				payload, _ := json.Marshal(session.TunnelOpenBroadcastMessage{Type: "tunnel_open", TunnelID: "t-c16-cluster", MappingID: mp.ID,
+					TargetClientID: clients[0].ClientID, SourceNodeID: "node-2", Timestamp: time.Now().Unix()})
+				bm.publish(broker.TopicTunnelOpen, payload)
+				if pollUntil(2*time.Second, func() bool { return clients[0].Near.Pending() >= 1 }) {
+					o.extraClass = append(o.extraClass, "tunnel-open-broadcast-write-pending-on-control-connection")
+				}
+			}
 		}
 	}
 	push := func(c *miniserver.Client, p *packet.TransferPacket) {
@@ -188,3 +220,39 @@ func runSession(r Round) *outcome {
 var compSession = register(&component{name: "session-manager", quick: 2000, thorough: 40000, gen: genSession, run: runSession})
 
 func TestSessionManager(t *testing.T) { compSession.test(t) }
+
+// brokerDouble is the BridgeManager of a clustered node: topics are in-process channels.
+type brokerDouble struct {
+	node string
+	mu   sync.Mutex
+	subs map[string][]chan *session.BroadcastMessage
+}
+
+func (b *brokerDouble) BroadcastTunnelOpen(*packet.TunnelOpenRequest, int64) error { return nil }
+func (b *brokerDouble) Subscribe(ctx context.Context, topic string) (<-chan *session.BroadcastMessage, error) {
+	ch := make(chan *session.BroadcastMessage, 16)
+	b.mu.Lock()
+	b.subs[topic] = append(b.subs[topic], ch)
+	b.mu.Unlock()
+	return ch, nil
+}
+func (b *brokerDouble) PublishMessage(ctx context.Context, topic string, payload []byte) error {
+	b.publish(topic, payload)
+	return nil
+}
+func (b *brokerDouble) publish(topic string, payload []byte) {
+	b.mu.Lock()
+	defer b.mu.Unlock()
+	for _, ch := range b.subs[topic] {
+		select {
+		case ch <- &session.BroadcastMessage{Topic: topic, Payload: payload}:
+		default:
+		}
+	}
+}
+func (b *brokerDouble) GetNodeID() string                                       { return b.node }
+func (b *brokerDouble) NotifyTunnelReady(context.Context, string, string) error { return nil }
+func (b *brokerDouble) WaitForTunnelReady(ctx context.Context, tunnelID string) (string, error) {
+	<-ctx.Done()
+	return "", ctx.Err()
+}
